@@ -43,7 +43,18 @@ fn craft_wm_codes(freq: &mut HashMap<usize, u32>, sigma: usize) -> Vec<PrefixCod
         .map(|(&k, &v)| LenInfo(k, v * 2)) // each fragment is 2 bits
         .collect::<Vec<_>>();
 
+    #[cfg(qwt_verif)]
+    {
+        let seed = crate::verif_hooks::tie_seed();
+        if seed != 0 {
+            f.sort_by_key(|x| (crate::verif_hooks::mix(seed, x.0), x.0));
+        }
+    }
+
     f.sort_by_key(|x| x.1);
+
+    #[cfg(qwt_verif)]
+    crate::verif_hooks::record_craft(f.iter().map(|x| (x.0, x.1)).collect());
 
     let mut c = vec![0; alph_size * 4];
     let mut assignments = vec![PrefixCode { content: 0, len: 0 }; sigma + 1];
